@@ -147,7 +147,8 @@ structure DSt where
 def cfgOfSource : Config :=
   { ioFlagMask := Gen.EvLoop.ioFlagMask, timersPop := Gen.EvLoop.timersPop, errnoSaved := Gen.EvLoop.errnoSaved,
     pendingInit := Gen.EvLoop.pendingInit, reventsCleared := Gen.EvLoop.reventsCleared,
-    invokeTypeSaved := Gen.EvLoop.invokeTypeSaved }
+    invokeTypeSaved := Gen.EvLoop.invokeTypeSaved, sigSnapshot := Gen.EvLoop.sigSnapshot,
+    procSnapshot := Gen.EvLoop.procSnapshot }
 
 def step (d : DSt) (ts : List String) (impl : String) : DSt × String × String :=
   let op := parseOp ts
